@@ -84,6 +84,14 @@ func GenerateMatrix(r *lp.Rng, index int) *Design {
 			&Field{Name: "m_items", Att: &Att{Type: &Type{MapKey: str(), MapElem: &Att{Type: &Type{Array: &Att{Type: &Type{Ref: "MxItem"}}}}}}},
 			&Field{Name: "m_tags", Att: &Att{Type: &Type{MapKey: str(), MapElem: &Att{Type: &Type{MapKey: str(), MapElem: &Att{Type: &Type{Ref: "MxTag"}}}}}}})
 	}
+	if loc == "body" && (index/4)%2 == 1 {
+		// a map (and an array) whose values are a user type with nothing to validate but a required primitive
+		g.d.Types = append(g.d.Types, &TypeDef{Name: "MxPlain", Kind: "type", Att: &Att{Type: &Type{IsObject: true, Object: []*Field{
+			{Name: "id", Att: &Att{Type: &Type{Prim: "Int"}}}, {Name: "note", Att: &Att{Type: &Type{Prim: "String"}}}}}, Required: []string{"id"}}})
+		payload.Type.Object = append(payload.Type.Object,
+			&Field{Name: "m_plain", Att: &Att{Type: &Type{MapKey: &Att{Type: &Type{Prim: "String"}}, MapElem: &Att{Type: &Type{Ref: "MxPlain"}}}}},
+			&Field{Name: "a_plain", Att: &Att{Type: &Type{Array: &Att{Type: &Type{Ref: "MxPlain"}}}}})
+	}
 	if index%12 == 7 {
 		// file servers: two single files whose request paths end in the same element, and a directory
 		s.Files = [][]string{{"/v2/swagger.json", "gen/http/openapi.json"}, {"/v3/swagger.json", "gen/http/openapi3.json"}, {"/static/{*path}", "public"}}
